@@ -6,6 +6,7 @@ import (
 	"bufio"
 	"bytes"
 	"context"
+	"crypto/tls"
 	"encoding/base64"
 	"fmt"
 	"io"
@@ -91,6 +92,15 @@ func (c *dcfg) dialer() ws.Dialer {
 
 var hostPool = []string{"example.org", "localhost", "a-b.c.example", "EXAMPLE.org", "xn--bcher-kva.example", "h", "192.0.2.7", "127.0.0.1",
 	"[::1]", "[2001:db8::1]", "[::ffff:192.0.2.1]", "[2001:DB8:0:0:8:800:200C:417A]"}
+
+// hardPaths / hardQueries: characters net/url treats specially. Dial takes the
+// string as a request URI: a raw '#' does not start a fragment, it is part of
+// the path or query and is sent percent-encoded.
+// (No raw blank in the query: net/url keeps RawQuery verbatim, so such a
+// string is not a usable URL in the first place — a caller precondition.)
+var hardPaths = []string{"/chat#general", "#top", "/a%23b", "/a%3Fb%2Fc", "/a;b=c;d", "/@me/x@y:z", "/\u00e9t\u00e9/\u00fc", "/a b", "/x//y/", "/%E2%82%AC", "/a#b#c", "/!$&'()*+,=", "/a%zz", "/a%2"}
+var hardQueries = []string{"?a=1?b=2", "?x#y", "#f?x=1", "?q=\u00e9", "?%23=%3F", "?#", "?a=%zz"}
+
 var pathPool = []string{"", "/", "/chat", "/a/b/c", "/a%20b", "/%2F", "/~user/-._", "/a%2fb/", "//double", "/%41", "/ws/"}
 var queryPool = []string{"", "", "?", "?x=1", "?a=b&c=d%20e", "?q=ws://x/y?z", "?%3F=%26"}
 var extraNamePool = []string{"Origin", "Cookie", "Authorization", "User-Agent", "X-Custom", "x-lower", "Sec-Fetch-Mode", "Accept-Language", "X-A", "X-B"}
@@ -122,6 +132,13 @@ func genURL(t *rapid.T) (string, string) {
 	}
 	path := rapid.SampledFrom(pathPool).Draw(t, "path")
 	query := rapid.SampledFrom(queryPool).Draw(t, "query")
+	if rapid.IntRange(0, 2).Draw(t, "hardurl") == 0 {
+		if rapid.Bool().Draw(t, "hardpath") {
+			path = rapid.SampledFrom(hardPaths).Draw(t, "hpath")
+		} else {
+			query = rapid.SampledFrom(hardQueries).Draw(t, "hquery")
+		}
+	}
 	return scheme + "://" + host + path + query, portForm
 }
 
@@ -343,7 +360,7 @@ func upgrade(c *dcfg, respond func(key string) []byte, sizes []int, eofWithData 
 // the global math/rand source (which ws draws its nonce from) is pinned to
 // c.Seed first; without, the source just moves on from the previous dial.
 func upgradeSeeded(c *dcfg, respond func(key string) []byte, sizes []int, eofWithData, reseed bool) (o outcome) {
-	u, err := url.Parse(c.URL)
+	u, err := url.ParseRequestURI(c.URL)
 	if err != nil {
 		panic("generator produced an unparsable URL: " + c.URL)
 	}
@@ -652,9 +669,9 @@ type reqCase struct {
 func TestRequest(t *testing.T) {
 	hx.Check(t, 4, func(t *rapid.T) {
 		c, portForm := genDcfg(t, true)
-		u, err := url.Parse(c.URL)
+		u, err := url.ParseRequestURI(c.URL)
 		if err != nil {
-			t.Fatalf("harness: url %q: %v", c.URL, err)
+			t.Skip("not a request URI") // Dial refuses it, see checkDial
 		}
 		hx.Eval()
 		hx.Class(fmt.Sprintf("req/%s/port=%s/v6=%v", u.Scheme, portForm, strings.HasPrefix(u.Host, "[")))
@@ -696,7 +713,7 @@ func TestKeyFreshness(t *testing.T) {
 		return
 	}
 	c := dcfg{URL: "ws://example.org/", Seed: 7}
-	u, _ := url.Parse(c.URL)
+	u, _ := url.ParseRequestURI(c.URL)
 	d := c.dialer()
 	rand.Seed(c.Seed)
 	seen := map[string]bool{}
@@ -800,13 +817,18 @@ func expectedAddr(u *url.URL) string {
 }
 
 func checkDial(c *dcfg, r *respgen.Response, sizes []int) string {
-	u, err := url.Parse(c.URL)
-	if err != nil {
-		return "harness: bad url " + c.URL
-	}
+	u, err := url.ParseRequestURI(c.URL)
 	rec, conn, o := dialOnce(c, r, sizes)
 	if o.panicked != nil {
 		return fmt.Sprintf("Dial panicked: %v", o.panicked)
+	}
+	if err != nil {
+		// not a request URI (bad escape, bad host): nothing may be dialed
+		hx.Class("dial/url-rejected")
+		if o.err == nil || rec.calls != 0 {
+			return fmt.Sprintf("Dial of %q, which net/url refuses (%v): err=%v, NetDial calls=%d", c.URL, err, o.err, rec.calls)
+		}
+		return ""
 	}
 	if rec.calls != 1 {
 		return fmt.Sprintf("NetDial called %d times", rec.calls)
@@ -844,12 +866,16 @@ func TestDial(t *testing.T) {
 		c, portForm := genDcfg(t, true)
 		r := respgen.Gen(t, "resp", c.Req, respgen.Opts{ValidOnly: rapid.IntRange(0, 3).Draw(t, "validonly") > 0})
 		sizes := gen.Chunks(t, "chunks")
-		u, _ := url.Parse(c.URL)
 		hx.Eval()
-		hx.Class(fmt.Sprintf("dial/%s/port=%s/v6=%v", u.Scheme, portForm, strings.HasPrefix(u.Host, "[")))
-		hx.NonTrivial(hx.Hash("dial", u.Scheme, portForm, strings.HasPrefix(u.Host, "["), u.Path == "", u.RawQuery != "", c.Host != ""), func() interface{} {
-			return map[string]interface{}{"dial": c.URL, "want_addr": expectedAddr(u)}
-		})
+		if u, err := url.ParseRequestURI(c.URL); err == nil {
+			hx.Class(fmt.Sprintf("dial/%s/port=%s/v6=%v", u.Scheme, portForm, strings.HasPrefix(u.Host, "[")))
+			if strings.Contains(c.URL, "#") {
+				hx.Class("dial/raw-hash-in-url")
+			}
+			hx.NonTrivial(hx.Hash("dial", u.Scheme, portForm, strings.HasPrefix(u.Host, "["), u.Path == "", u.RawQuery != "", c.Host != "", strings.Contains(c.URL, "#")), func() interface{} {
+				return map[string]interface{}{"dial": c.URL, "want_addr": expectedAddr(u), "want_request_uri": u.RequestURI()}
+			})
+		}
 		if msg := checkDial(&c, r, sizes); msg != "" {
 			t.Fatalf("%s\nconfig: %s", msg, hx.JSON(c))
 		}
@@ -867,8 +893,8 @@ func TestDialURLGrid(t *testing.T) {
 				continue
 			}
 			for _, port := range []string{"", ":80", ":443", ":8080", ":1", ":65535"} {
-				for _, path := range pathPool {
-					for _, q := range []string{"", "?", "?x=1&y=%20"} {
+				for _, path := range append(append([]string(nil), pathPool...), hardPaths...) {
+					for _, q := range append([]string{"", "?", "?x=1&y=%20"}, hardQueries...) {
 						c := dcfg{URL: scheme + "://" + host + port + path + q, Seed: int64(n)}
 						n++
 						if msg := checkDial(&c, valid, nil); msg != "" {
@@ -881,7 +907,7 @@ func TestDialURLGrid(t *testing.T) {
 		}
 	}
 	hx.EvalN(n)
-	hx.Part("dial: scheme x host form x port x path x query", int64(n), true)
+	hx.Part("dial: scheme x host form x port x path (incl. #, escapes, ;, @, non-ASCII, bad escapes) x query", int64(n), true)
 }
 
 // ---------------------------------------------------------------------------
@@ -1496,4 +1522,172 @@ func TestProtocolLists(t *testing.T) {
 	}
 	hx.EvalN(n)
 	hx.Part("subprotocol values: single tokens and 2-/3-element lists over requested and foreign tokens x separators", int64(n), true)
+}
+
+// ---------------------------------------------------------------------------
+// default TLS client (TLSClient == nil): server name per dial, caller's config untouched
+
+// helloConn records what is written (the ClientHello) and ends the stream at
+// the first Read, so the TLS handshake fails at once.
+type helloConn struct {
+	respgen.Conn
+	wrote []byte
+}
+
+func (h *helloConn) Write(b []byte) (int, error) { h.wrote = append(h.wrote, b...); return len(b), nil }
+func (h *helloConn) Read(b []byte) (int, error)  { return 0, io.EOF }
+
+// clientHelloSNI extracts the host name of the server_name extension from the
+// first TLS record of b. ok is false if b is not a ClientHello; name is "" if
+// the hello has no server_name extension.
+func clientHelloSNI(b []byte) (name string, ok bool) {
+	if len(b) < 5 || b[0] != 22 {
+		return "", false
+	}
+	n := int(b[3])<<8 | int(b[4])
+	if len(b) < 5+n {
+		return "", false
+	}
+	h := b[5 : 5+n]
+	if len(h) < 4 || h[0] != 1 {
+		return "", false
+	}
+	hl := int(h[1])<<16 | int(h[2])<<8 | int(h[3])
+	if len(h) < 4+hl {
+		return "", false
+	}
+	p := h[4 : 4+hl]
+	skip := func(k int) bool {
+		if len(p) < k {
+			return false
+		}
+		p = p[k:]
+		return true
+	}
+	vec := func(lenBytes int) ([]byte, bool) {
+		if len(p) < lenBytes {
+			return nil, false
+		}
+		l := 0
+		for i := 0; i < lenBytes; i++ {
+			l = l<<8 | int(p[i])
+		}
+		p = p[lenBytes:]
+		if len(p) < l {
+			return nil, false
+		}
+		v := p[:l]
+		p = p[l:]
+		return v, true
+	}
+	if !skip(2 + 32) { // version, random
+		return "", false
+	}
+	if _, ok := vec(1); !ok { // session id
+		return "", false
+	}
+	if _, ok := vec(2); !ok { // cipher suites
+		return "", false
+	}
+	if _, ok := vec(1); !ok { // compression methods
+		return "", false
+	}
+	if len(p) == 0 {
+		return "", true
+	}
+	exts, ok := vec(2)
+	if !ok {
+		return "", false
+	}
+	for len(exts) >= 4 {
+		typ := int(exts[0])<<8 | int(exts[1])
+		l := int(exts[2])<<8 | int(exts[3])
+		if len(exts) < 4+l {
+			return "", false
+		}
+		data := exts[4 : 4+l]
+		exts = exts[4+l:]
+		if typ != 0 {
+			continue
+		}
+		// server_name_list: len(2) { type(1) len(2) name }
+		if len(data) < 5 || data[2] != 0 {
+			return "", false
+		}
+		nl := int(data[3])<<8 | int(data[4])
+		if len(data) < 5+nl {
+			return "", false
+		}
+		return string(data[5 : 5+nl]), true
+	}
+	return "", true
+}
+
+func TestDefaultTLSClientServerName(t *testing.T) {
+	if !hx.Mine(3) {
+		return
+	}
+	hosts := []string{"a.example", "b.example.org:8443", "c.example.net", "a.example:444", "d.example"}
+	type kind struct {
+		name string
+		mk   func() *tls.Config
+		want func(host string) string
+	}
+	self := func(h string) string { return h }
+	kinds := []kind{
+		{"nil", func() *tls.Config { return nil }, self},
+		{"empty-shared", func() *tls.Config { return &tls.Config{} }, self},
+		{"fixed", func() *tls.Config { return &tls.Config{ServerName: "fixed.example"} }, func(string) string { return "fixed.example" }},
+		{"nil-again", func() *tls.Config { return nil }, self},
+	}
+	n := 0
+	for _, k := range kinds {
+		cfg := k.mk() // shared between the dials of this kind
+		before := ""
+		if cfg != nil {
+			before = cfg.ServerName
+		}
+		for _, host := range hosts {
+			u, _ := url.Parse("wss://" + host + "/chat")
+			hc := &helloConn{}
+			var addr string
+			d := ws.Dialer{
+				TLSConfig: cfg,
+				NetDial: func(ctx context.Context, network, a string) (net.Conn, error) {
+					addr = a
+					return hc, nil
+				},
+			}
+			n++
+			desc := map[string]string{"tls_config": k.name, "url": u.String()}
+			_, _, _, err := d.Dial(context.Background(), u.String())
+			if err == nil {
+				hx.Failf(t, desc, "Dial succeeded although the connection ended during the TLS handshake")
+				return
+			}
+			if want := expectedAddr(u); addr != want {
+				hx.Failf(t, desc, "NetDial address %q, want %q", addr, want)
+				return
+			}
+			sni, ok := clientHelloSNI(hc.wrote)
+			if !ok {
+				hx.Failf(t, desc, "no ClientHello was written before the first read (%d bytes: %x)", len(hc.wrote), clip(hc.wrote))
+				return
+			}
+			if want := k.want(u.Hostname()); sni != want {
+				hx.Failf(t, desc, "ClientHello server_name %q, want %q (address dialed: %s)", sni, want, addr)
+				return
+			}
+			if cfg != nil && cfg.ServerName != before {
+				hx.Failf(t, desc, "the caller's tls.Config was modified: ServerName %q, was %q", cfg.ServerName, before)
+				return
+			}
+			hx.Class("tls-default/" + k.name)
+		}
+	}
+	hx.EvalN(n)
+	hx.NonTrivial(hx.Hash("tls-default-sni"), func() interface{} {
+		return map[string]interface{}{"test": "default TLS client", "hosts": hosts, "configs": []string{"nil", "shared empty", "fixed ServerName"}}
+	})
+	hx.Part("default TLS client: 4 config kinds x 5 consecutive wss dials to different hosts", int64(n), true)
 }
